@@ -73,3 +73,53 @@ Example C04_ex_kinds :
   attr_kind (bs "a") (bs "href") = KUrl /\ attr_kind (bs "A") (bs "HREF") = KUrl /\ attr_kind (bs "form") (bs "action") = KUrl /\
   attr_kind (bs "div") (bs "href") = KDefault /\ attr_kind (bs "button") (bs "onclick") = KOn /\ attr_kind (bs "p") (bs "style") = KStyle.
 Proof. exact ex_kinds. Qed.
+
+(* ---------- END TO END: what the browser's URL parser receives (sanitise -> attribute escaping -> tokenizer ->
+   character-reference decoding of the attribute value -> WHATWG scheme) ---------- *)
+From Coq Require Import NArith.
+From V Require Import spec.HtmlTok spec.HtmlRefs spec.HtmlEntities spec.UrlSink spec.DocExpect model.Escape model.DocFrag
+  proofs.UrlRenderProof.
+
+(* The sanitiser looks for a literal ':' only; a value such as javascript&colon;alert(1) passes it unchanged.  That
+   is sound only because the generated code writes the value through the escaper: for ANY named-reference table
+   in which ; occurs only last in a name, lookups are functional and amp; lt; gt; are present, and any code-point
+   encoder that is right on ASCII, decoding the attribute value the generated code wrote gives back exactly what the
+   sanitiser returned - so the URL parser receives the failure URL, or the input itself and that input has no scheme
+   or an allow-listed one.  "However it is disguised with character references" is this theorem. *)
+Theorem C04_rendered_value_sound : forall (named : list (bytes * bytes)) (encode_cp : N -> bytes),
+  table_ok named -> encoder_ok encode_cp ->
+  forall s : bytes,
+    let d := decode_refs named encode_cp true (escape (url s)) in
+    d = url s /\ rendered_ok s d.
+Proof. exact rendered_value_sound. Qed.
+Print Assumptions C04_rendered_value_sound.
+
+(* ... in particular for the 2231 named references of the HTML standard and UTF-8 (spec/UrlSink.v decode_attr, the
+   decoder the harness runs on the implementation's rendered attribute) *)
+Theorem C04_rendered_value_sound_html5 : forall s : bytes,
+  decode_attr (escape (url s)) = url s /\ rendered_ok s (decode_attr (escape (url s))).
+Proof. exact rendered_value_sound_html5. Qed.
+Print Assumptions C04_rendered_value_sound_html5.
+
+(* ... and the value the tokenizer reports for href / action IS that escaped string: for every input and all
+   well-formed children the rendered <a href={ templ.URL(s) }> / <form action={ templ.URL(s) }> is read as one start
+   tag with exactly that one attribute, whatever s holds (quotes, <, >, NUL, invalid UTF-8). *)
+Theorem C04_rendered_link_tokens : forall (s : bytes) (ch : list tree), forallb wf ch = true ->
+  tok (render (TElem (bs "a") [ADyn (bs "href") (url s)] ch)) =
+    TStart (bs "a") [(bs "href", escape (url s))] false :: flat_map expected ch ++ [TEnd (bs "a")] /\
+  tok (render (TElem (bs "form") [ADyn (bs "action") (url s)] ch)) =
+    TStart (bs "form") [(bs "action", escape (url s))] false :: flat_map expected ch ++ [TEnd (bs "form")].
+Proof. exact (fun s ch W => conj (link_tokens s ch W) (form_tokens s ch W)). Qed.
+Print Assumptions C04_rendered_link_tokens.
+
+(* non-vacuity: the decoder does turn the disguises into a javascript: URL, and a writer that did NOT escape (or kept
+   references already present in the value) would break the property on an input the sanitiser passes unchanged *)
+Example C04_ex_disguise_decodes :
+  decode_attr (bs "&#106;ava&Tab;script&colon;alert(1)") = bs "java" ++ [x09] ++ bs "script:alert(1)" /\
+  browser_scheme (decode_attr (bs "javascript&#x3A;alert(1)")) = Some (bs "javascript").
+Proof. split; vm_compute; reflexivity. Qed.
+Example C04_ex_unescaped_refuted : exists s : bytes,
+  url s = s /\ rendered_okb s (decode_attr s) = false /\ rendered_okb s (decode_attr (escape (url s))) = true.
+Proof. exists (bs "javascript&colon;alert(1)"). repeat split; vm_compute; reflexivity. Qed.
+Example C04_ex_table : length html5_entities = 2231%nat /\ table_ok html5_entities.
+Proof. exact (conj html5_entities_count html5_entities_ok). Qed.
